@@ -198,3 +198,31 @@ SECURITY = dict(
 UNITS.append(SECURITY)
 # C18 END
 # ---------------------------------------------------------------------------------------------
+
+# ---------------------------------------------------------------------------------------------
+# C11 BEGIN (owner: C11 worker) -- frequency-domain MDS multiplication (straight-line i64/u64 code):
+# crypto/src/hash/mds/mds_f64_12x12.rs, mds_f64_8x8.rs and the real-FFT helpers of math/src/fft/real_u64.rs.
+# `mds_multiply` itself (loops over `&mut [BaseElement; N]`, u128 folding) is modelled by hand in
+# coq/Model/Rescue.v on top of the generated `*_mds_multiply_freq` and tied by the C11 correspondence.
+_RFFT = "math/src/fft/real_u64.rs"
+
+
+def _mds_unit(module, prefix, path):
+    return dict(
+        module=module, prefix=prefix, file=path, inner=U(64), posint=U(64),
+        items=[
+            fn("fft2_real", role="free", file=_RFFT),
+            fn("ifft2_real_unreduced", role="free", file=_RFFT),
+            fn("fft4_real", role="free", file=_RFFT),
+            fn("ifft4_real_unreduced", role="free", file=_RFFT),
+            const("MDS_FREQ_BLOCK_ONE"), const("MDS_FREQ_BLOCK_TWO"), const("MDS_FREQ_BLOCK_THREE"),
+            fn("block1", role="free"), fn("block2", role="free"), fn("block3", role="free"),
+            fn("mds_multiply_freq", role="free"),
+        ],
+    )
+
+
+UNITS.append(_mds_unit("Mds12", "mds12", "crypto/src/hash/mds/mds_f64_12x12.rs"))
+UNITS.append(_mds_unit("Mds8", "mds8", "crypto/src/hash/mds/mds_f64_8x8.rs"))
+# C11 END
+# ---------------------------------------------------------------------------------------------
